@@ -12,8 +12,8 @@ EXTENDS Integers, Sequences, FiniteSets, SequencesExt, Json, IOUtils, Randomizat
 VARIABLE x
 Quick == IOEnv.VERIF_TIER = "quick"
 Backends == {"A", "B"}
-Kinds == {"ok1", "okstate", "failP", "failPH", "failC", "neqok", "neqfail", "direct"}
-ProbeKinds == {"ok1", "okstate", "neqok", "ok2", "direct"}
+Kinds == {"ok1", "okstate", "failP", "failPH", "failC", "neqok", "neqfail", "direct", "phfile"}
+ProbeKinds == {"ok1", "okstate", "neqok", "ok2", "direct", "phfile"}
 Ops(have) == {<<"new", b, s>> : b \in Backends \ have, s \in BOOLEAN}
              \cup {<<"init", b>> : b \in have}
              \cup {<<"rule", b, k>> : b \in have, k \in Kinds}
